@@ -140,7 +140,14 @@ func genPositionsWalk(r *rand.Rand, n int) []Step {
 func genScenario(r *rand.Rand, i int) []Step {
 	blk := func(dt int) Step { return Step{"a": "block", "dt": float64(dt)} }
 	u, v := pick(r, "u2", "u3"), "u1"
-	switch i % 19 {
+	switch i % 20 {
+	case 19: // a long accrues borrow interest, its owner tops it up (the consolidation books the interest as UNPAID without settling it),
+		// then the market reaches the stop-loss (or take-profit) and a bot closes it through the stop-loss / take-profit list
+		return []Step{{"a": "perpOpen", "u": u, "p": float64(1), "side": "long", "coll": "uusdc", "sz": "s2", "lev": "3", "sl": "0.9", "tp": "1.2"},
+			{"a": "perpOpen", "u": v, "p": float64(1), "side": "long", "coll": "uusdc", "sz": "s1", "lev": "2"}, blk(5), blk(86400 * pick(r, 1, 3)),
+			{"a": "perpOpen", "u": u, "p": float64(1), "side": "long", "coll": "uusdc", "sz": "1000000", "lev": pick(r, "0", "2"), "sl": "0.9", "tp": "1.2"}, blk(5),
+			{"a": "feed", "asset": "ATOM", "mul": pick(r, "0.88", "1.25")}, blk(5),
+			{"a": "perpClosePositions", "u": "bot", "exact": true, "liq": []any{}, "sl": []any{[]any{u, float64(1)}}, "tp": []any{[]any{u, float64(1)}}}, blk(5), blk(5)}
 	case 18: // the base currency is quoted off its peg while a bot names positions whose stop-loss / take-profit the trading asset's
 		// oracle price has NOT reached (a long's stop-loss 1-2 % below the market, a short's take-profit 1-2 % below the market)
 		return []Step{{"a": "perpOpen", "u": u, "p": float64(1), "side": "long", "coll": "uusdc", "sz": "s1", "lev": "2", "sl": pick(r, "0.99", "0.985")},
